@@ -282,6 +282,10 @@ def cmdline_handler(argv):
                     runhy.run_path(str(filename), run_name="__main__")
                 return 0
             except FileNotFoundError as e:
+                if Path(filename).exists():
+                    # The script was found, so this is an error of the
+                    # running program.
+                    raise
                 print(
                     "hy: Can't open file '{}': [Errno {}] {}".format(
                         e.filename, e.errno, e.strerror
